@@ -654,7 +654,9 @@ class _SetOperation(Selectable, Term):  # type:ignore[misc]
         set_operation_template = " {type} {query_string}"
 
         # an operand's own alias defines no name inside the set operation
-        set_ctx = ctx.copy(subquery=self.base_query.wrap_set_operation_queries, with_alias=False)
+        # MySQL leaves plain operands bare, whichever class built them
+        wrap = self.base_query.wrap_set_operation_queries and ctx.dialect != Dialects.MYSQL
+        set_ctx = ctx.copy(subquery=wrap, with_alias=False)
         base_querystring = self._operand_sql(self.base_query, set_ctx)
 
         querystring = base_querystring
